@@ -223,6 +223,49 @@ func lockCall(c *ast.CallExpr) (lock string, op string) {
 	return fp, se.Sel.Name
 }
 
+// calleeNames: the package functions a call may reach: the static callee, or, for a call
+// through an interface declared in the package, the method of every package type implementing it
+func calleeNames(c *ast.CallExpr) []string {
+	n := calleeName(c)
+	if n == "" {
+		return nil
+	}
+	if se, ok := c.Fun.(*ast.SelectorExpr); ok {
+		if sel, ok := info.Selections[se]; ok && sel.Kind() == types.MethodVal {
+			if it, ok := sel.Recv().Underlying().(*types.Interface); ok {
+				var out []string
+				scope := pkgTypes.Scope()
+				for _, nm := range scope.Names() {
+					tn, ok := scope.Lookup(nm).(*types.TypeName)
+					if !ok {
+						continue
+					}
+					if _, isIface := tn.Type().Underlying().(*types.Interface); isIface {
+						continue
+					}
+					t := tn.Type()
+					if named, ok := t.(*types.Named); ok && named.TypeParams().Len() > 0 {
+						// generic: compare by method name only
+						for i := 0; i < named.NumMethods(); i++ {
+							if named.Method(i).Name() == se.Sel.Name {
+								out = append(out, tn.Name()+"."+se.Sel.Name)
+							}
+						}
+						continue
+					}
+					if types.Implements(t, it) || types.Implements(types.NewPointer(t), it) {
+						out = append(out, tn.Name()+"."+se.Sel.Name)
+					}
+				}
+				return out
+			}
+		}
+	}
+	return []string{n}
+}
+
+var pkgTypes *types.Package
+
 func calleeName(c *ast.CallExpr) string {
 	var obj types.Object
 	switch f := c.Fun.(type) {
@@ -290,7 +333,7 @@ func (w *walker) expr(e ast.Expr, write bool) {
 			w.expr(x.Args[1], false)
 			return
 		}
-		if cn := calleeName(x); cn != "" {
+		for _, cn := range calleeNames(x) {
 			w.fn.calls = append(w.fn.calls, callSite{cn, copyLocks(w.held)})
 		}
 		w.expr(x.Fun, false)
@@ -599,7 +642,7 @@ func main() {
 	if len(p.Errors) > 0 {
 		fmt.Fprintln(os.Stderr, "package errors:", p.Errors)
 	}
-	fset, info = p.Fset, p.TypesInfo
+	fset, info, pkgTypes = p.Fset, p.TypesInfo, p.Types
 	var decls []*ast.FuncDecl
 	for _, f := range p.Syntax {
 		fname := fset.Position(f.Pos()).Filename
